@@ -45,6 +45,13 @@ theorem left_factor_terminates_bound {ord : GroupOrd} (hord : ∀ l, (ord l).Per
   have := lfMeasure_le rs
   exact ⟨rs', leftFactorLoop_fuel_mono _ rs rs' h fuel (by omega)⟩
 
+/-- **C10, the driver's fuel suffices**: the model driver runs `leftFactor` with
+    `lfFuel rs = (Σ (|rhs| + 1)) · (|rs| + 1) + 10`; for the drain orders it uses (all permutations)
+    it never answers `fuel-exhausted`. -/
+theorem left_factor_driver_fuel_suffices {ord : GroupOrd} (hord : ∀ l, (ord l).Perm l)
+    (rs : List RuleN) : ∃ rs', leftFactor ord (lfFuel rs) rs = some rs' :=
+  left_factor_terminates_bound hord rs _ (lfFuel_ge rs)
+
 /-- **C10, one modifying round strictly lowers the measure** — the statement that makes the loop a
     well-founded recursion on `lfMeasure`. -/
 theorem factor_out_decreases {ord : GroupOrd} (hord : ∀ l, (ord l).Perm l) {rs rs' : List RuleN}
